@@ -21,7 +21,7 @@ from vmon.props import c12
 
 LEVEL = "exploration"
 SHARDS = {"quick": 16, "thorough": 16}
-MUST = ["streams", "options.combos_seen", "solo.packets", "solo.unrecognized", "solo.flagged", "solo.framed_object_parses", "streams.inspected_after_exhaustion", "interleave.calibrator_history", "options.root_override_interleaved", "interleavings.exhaustive",
+MUST = ["streams", "options.combos_seen", "solo.packets", "solo.unrecognized", "solo.flagged", "solo.framed_object_parses", "streams.inspected_after_exhaustion", "interleave.calibrator_history", "interleave.error_suspension", "options.root_override_interleaved", "interleavings.exhaustive",
         "interleavings.random", "interleavings.threads", "interleave.segmented", "immutability.snapshots", "setattr.monitored_classes"]
 RULE = ("(a) streams of 5-40 generated packets mixing several APIDs x {recognised, unrecognised (dead end / ambiguous), "
         "longer than consumed, shorter than consumed} under all 8 combinations of parse_bad_pkts, "
@@ -32,7 +32,9 @@ RULE = ("(a) streams of 5-40 generated packets mixing several APIDs x {recognise
         "sys.setswitchinterval(1e-6), a generator created with a root_container_name override advanced together with a default one; (c) deep snapshot + to_xml bytes before/after and a __setattr__ write log. "
         "distinct_nontrivial = distinct (check kind, option combination, packet-class mix, schedule class) signatures; "
         "a single-generator run over recognised packets with default options is trivial and excluded.")
-ASSUMPTIONS = ["packets on which solo parsing raises an exception other than UnrecognizedPacketTypeError are not put into streams "
+ASSUMPTIONS = ["a next() call on a small packet that has not returned after 180 s of wall-clock time is blocked for good (it normally takes "
+               "milliseconds): the only wall-clock verdict in the suite, needed because a deadlock has no other observable",
+               "packets on which solo parsing raises an exception other than UnrecognizedPacketTypeError are not put into streams "
                "(an escaping exception ends a generator by design)",
                "each thread owns its generator, packets and records; only the definition is shared (read-only)"]
 
@@ -364,6 +366,25 @@ def solo_sequence(defn, stream, kw):
     return run_stream(defn, stream, **kw)
 
 
+class Blocked(Exception):
+    """a next() call did not return within the watchdog time (another generator holds something across its yield)"""
+
+
+def guarded_next(gen, seconds=180):
+    """next(gen) in the main thread under a SIGALRM watchdog (lock acquisition is interruptible by signals)"""
+    import signal
+
+    def on_alarm(signum, frame):
+        raise Blocked()
+    old = signal.signal(signal.SIGALRM, on_alarm)
+    signal.alarm(seconds)
+    try:
+        return monitored(next, gen)
+    finally:
+        signal.alarm(0)
+        signal.signal(signal.SIGALRM, old)
+
+
 def interleave(defn, streams, schedule):
     """advance generators according to schedule (list of generator indexes); returns per-generator item lists"""
     gens = [defn.packet_generator(s, **kw) for s, kw in streams]
@@ -372,7 +393,9 @@ def interleave(defn, streams, schedule):
     for gi in schedule:
         if done[gi]:
             continue
-        s = monitored(next, gens[gi])
+        s = guarded_next(gens[gi])
+        if isinstance(s.exc, Blocked):
+            raise Blocked(f"generator {gi} of {len(gens)}")
         if s.exc is not None:
             done[gi] = True
             if not isinstance(s.exc, StopIteration):
@@ -461,7 +484,7 @@ def check_interleavings(ctx, d, defn_doc):
             def work(i):
                 results[i] = run_stream(dfn, streams[i][0], **streams[i][1])
             with Immut(ctx, dfn, f"threads ({family})"):
-                ths = [threading.Thread(target=work, args=(i,)) for i in range(4)]
+                ths = [threading.Thread(target=work, args=(i,), daemon=True) for i in range(4)]
                 for t in ths:
                     t.start()
                 for t in ths:
@@ -517,10 +540,71 @@ def calibrator_history(ctx):
         ctx.violation("order-dependence/calibrator-history", "the same packets decode to different items when the stream is reversed", {"n": len(fwd)})
 
 
+def error_suspension(ctx):
+    """a generator that has just yielded an unrecognized-packet error object is suspended there while OTHER generators (of this and
+    of another definition) are advanced: every next() returns (a watchdog alarm turns a blocked next() into a violation)"""
+    import signal
+    from space_packet_parser import packets as P
+    doc_xml = docs.header_only_doc(root_abstract=True, extra_containers=(
+        '<xtce:SequenceContainer name="K"><xtce:EntryList/><xtce:BaseContainer containerRef="CCSDSPacket"><xtce:RestrictionCriteria>'
+        '<xtce:Comparison parameterRef="PKT_APID" value="11" useCalibratedValue="false"/></xtce:RestrictionCriteria></xtce:BaseContainer></xtce:SequenceContainer>'))
+    d1, d2 = load_definition(doc_xml), load_definition(doc_xml)
+    mk = lambda apids: b"".join(bytes(P.create_ccsds_packet(bytes([i]), apid=a, sequence_count=i)) for i, a in enumerate(apids))
+    streams = [mk([99, 11, 98, 11]), mk([11, 97, 11]), mk([96, 95, 11])]
+    kw = {"yield_unrecognized_packet_errors": True, "parse_bad_pkts": True}
+    alone = [run_stream(d, st, **kw) for d, st in ((d1, streams[0]), (d1, streams[1]), (d2, streams[2]))]
+
+    def on_alarm(signum, frame):
+        raise TimeoutError("next() did not return within the watchdog time")
+    old = signal.signal(signal.SIGALRM, on_alarm)
+    try:
+        for sched_name, sched in (("round-robin", [0, 1, 2] * 6), ("error-then-others", [0, 1, 1, 2, 2, 0, 0, 1, 2, 0, 0, 1, 2]), ("reverse", [2, 1, 0] * 6)):
+            gens = [d1.packet_generator(streams[0], **kw), d1.packet_generator(streams[1], **kw), d2.packet_generator(streams[2], **kw)]
+            outs = [[], [], []]
+            blocked = None
+            for gi in sched:
+                signal.alarm(180)
+                try:
+                    s = monitored(next, gens[gi])
+                finally:
+                    signal.alarm(0)
+                if isinstance(s.exc, TimeoutError):
+                    blocked = gi
+                    break
+                if s.exc is None:
+                    outs[gi].append(plain_item(s.value))
+            ctx.count("evaluations")
+            ctx.count("interleave.error_suspension")
+            ctx.sig("interleave", "error-suspension", sched_name)
+            if blocked is not None:
+                ctx.violation(f"interleaving/blocked-next/{sched_name}", f"next() of generator {blocked} did not return within 180 s while another generator was suspended "
+                              "at an error object it had just yielded", {"schedule": sched_name, "generator": blocked})
+                raise Blocked(f"error-suspension schedule {sched_name}")   # the abandoned generator keeps whatever it holds
+            for g in gens:
+                g.close()
+            if any(o != a[:len(o)] for o, a in zip(outs, alone)):
+                ctx.violation(f"interleaving/error-suspension/{sched_name}", "generators advanced around yielded error objects differ from their solo sequences",
+                              {"schedule": sched_name})
+    finally:
+        signal.signal(signal.SIGALRM, old)
+
+
 def run(ctx):
+    try:
+        _run(ctx)
+    except Blocked as b:
+        # whatever blocks one next() (a lock kept across a yield) stays held by the abandoned generator: nothing more can be
+        # decided in this process, the violation stands
+        ctx.violation("interleaving/blocked-next/general", f"a next() call did not return within the watchdog time while generators were interleaved ({b})",
+                      {"detail": str(b)})
+
+
+def _run(ctx):
     arm_setattr(ctx)
     if ctx.mine(1):
         calibrator_history(ctx)
+    if ctx.mine(2):
+        error_suspension(ctx)
     ndocs = ctx.size(96, 15000)
     for d in range(ndocs):
         if not ctx.mine(d):
